@@ -502,3 +502,18 @@ Proof.
     + intros p v HI ->. apply (H offs eq_refl v HI).
     + unfold coff, oget. destruct (lookup c (g_commit g)); cbn; lia.
 Qed.
+
+(** The hypotheses of the conditional theorems are satisfiable. *)
+Definition exs_cfg : scfg := {| s_digest := fun k => k * 7 + 3; s_ret := RSize 1; s_strat := SSticky |}.
+Definition exs_ops : list sop :=
+  [LAppend 1 5; LAppend 2 6; GJoinBegin 0; GJoinBegin 1; LAppend 1 7; GJoinEnd 0; LRetain 8; GJoinEnd 1; GLeaveBegin 0].
+
+Example stream_hypotheses_satisfiable :
+  mono_from 0 exs_ops /\
+  (exists p r, nth_error (l_parts (fst (srun exs_cfg 3 exs_ops))) 1 = Some p /\ In r (p_recs p) /\ r_key r = 1) /\
+  g_cons (snd (fst (sstep exs_cfg (srun exs_cfg 3 exs_ops) GLeaveEnd))) <> [] /\
+  g_assign (snd (fst (sstep exs_cfg (srun exs_cfg 3 exs_ops) GLeaveEnd))) = [(1, [0; 1; 2])].
+Proof.
+  split; [cbn; lia|]. split; [|split; [vm_compute; discriminate|vm_compute; reflexivity]].
+  eexists. eexists. split; [vm_compute; reflexivity|]. split; [left; reflexivity|reflexivity].
+Qed.
